@@ -509,6 +509,49 @@ fn handle(op: &str, ty: &str, a: &[f64]) -> Option<String> {
                 _ => None,
             }
         }
+        "pwderiv" | "pwmul" | "pwmulassign" | "pwneg" | "pwtranslate" | "pwintiter" | "pwintiterref" => {
+            // Piecewise<Poly1>, type "n": n x (end, c0, c1), then the scalar (mul, mulassign, translate) or the knot x, y (iterators)
+            let n: usize = ty.parse().ok()?;
+            let segs: Vec<Segment<Poly1>> = (0..n).map(|i| Segment::<Poly1>::from_flat(&a[3 * i..3 * i + 3])).collect();
+            let rest = &a[3 * n..];
+            let mut o = Vec::new();
+            match op {
+                "pwderiv" => {
+                    for s in &(Piecewise { segments: segs }).derivative().segments {
+                        o.extend(s.to_flat());
+                    }
+                }
+                "pwintiter" => {
+                    for s in Segment::integral_iter(segs, Knot { x: rest[0], y: rest[1] }) {
+                        o.extend(s.to_flat());
+                    }
+                }
+                "pwintiterref" => {
+                    for s in Segment::integral_iter_ref(&segs, Knot { x: rest[0], y: rest[1] }) {
+                        o.extend(s.to_flat());
+                    }
+                }
+                _ => {
+                    let mut pw = Piecewise { segments: segs };
+                    let pw = match op {
+                        "pwmul" => pw * rest[0],
+                        "pwmulassign" => {
+                            pw *= rest[0];
+                            pw
+                        }
+                        "pwneg" => -pw,
+                        _ => {
+                            pw.translate(rest[0]);
+                            pw
+                        }
+                    };
+                    for s in &pw.segments {
+                        o.extend(s.to_flat());
+                    }
+                }
+            }
+            Some(out(&o))
+        }
         "arb" => {
             // Arbitrary for Piecewise<Poly0>: type "K": K ends then K piece values -> byte string [1][end]..[0][pieces..]
             let k: usize = ty.parse().ok()?;
